@@ -60,6 +60,9 @@ class Shapes:
             C('C'),
             G.shallow('HintSignList'),
             G.union(C('A'), G.subscripted('HintSignList', C('B'))),
+            # a union with more members than the unions wrap() nests it in (what a TypeVar with constraints,
+            # an override or an alias reduces to *after* the enclosing union was built)
+            G.union(C('P'), C('Q'), G.subscripted('HintSignSet', C('R')), C('T')),
             G.subscripted('HintSignList', C('I')),
             G.subscripted('HintSignSet', C('I')),
             G.subscripted('HintSignIterable', C('I')),
@@ -135,7 +138,7 @@ class Shapes:
                 level2.append(w)
         # one more wrapping of a reduced set: each production around each (production around a class)
         level3 = []
-        for c in reps[2:12]:
+        for c in reps[2:13]:
             for w in self.wrap(c)[:8]:
                 for w2 in self.wrap(w)[:3] + self.wrap(w)[8:10] + self.wrap(w)[13:15]:
                     level3.append(w2)
@@ -147,7 +150,7 @@ class Shapes:
         out = list(self.leaves())
         for c in self.leaves() + [self.G.ignorable()]:
             out.extend(self.wrap(c))
-        for c in self.representatives()[2:12]:
+        for c in self.representatives()[2:13]:
             out.extend(self.wrap(c))
         return out
 
